@@ -709,7 +709,8 @@ package orda
 //@   modifies *
 
 // ---------------------------------------------------------------------------------------
-// Document API (C03): invalid arguments are answered with an error. The Document object as its API methods
+// Document API (C03): invalid arguments are answered with an error (the empty key is a legal JSON key and is
+// accepted: PatchByJSON to a target with such a key relies on it, C19). The Document object as its API methods
 // see it (same reading as listAPI above): embedded parts present, the node it stands for is one of the three
 // json wrappers, the transaction layer is well-formed, single-threaded use.
 // ---------------------------------------------------------------------------------------
@@ -720,7 +721,7 @@ package orda
 //@   mode math
 //@   props C03
 //@   requires docAPI(its) && docTxOK(its)
-//@   ensures[empty-key-and-null-value-are-refused] key == "" || value == nil ==> result1 != nil
+//@   ensures[a-null-value-is-refused] value == nil ==> result1 != nil
 //@   ensures[the-wrong-kind-of-container-is-refused] !old(its.SnapshotDatatype.Snapshot.(*jsonObject)) ==> result1 != nil
 //@   ensures[a-deleted-container-is-refused] old(garbageP(primOf(its.SnapshotDatatype.Snapshot.(as jsonType)))) ==> result1 != nil
 //@   modifies *
@@ -793,7 +794,6 @@ package orda
 //@   ensures[invalid-range-is-refused] old(its.SnapshotDatatype.Snapshot.(*jsonArray)) && !(pos >= 0 && numOfNodes >= 1 && pos < old(arrSize(its)) && numOfNodes <= old(arrSize(its)) - pos) ==> result1 != nil
 //@   ensures[error-returns-no-documents] result1 != nil ==> len(result0) == 0
 //@   modifies *
-
 
 //@ func (*document).DeleteInObject
 //@   mode math
